@@ -108,6 +108,10 @@ func (c *coalescing) Run(ctx context.Context, ch chan<- struct{}) error {
 
 	// Prevent wg race condition on Close and Run.
 	c.lock.Lock()
+	if c.closed.Load() {
+		c.lock.Unlock()
+		return nil
+	}
 	c.wg.Add(1)
 	c.lock.Unlock()
 	defer c.wg.Done()
@@ -223,6 +227,10 @@ func (c *coalescing) reset() {
 func (c *coalescing) Add() {
 	c.lock.Lock()
 	defer c.lock.Unlock()
+	if c.closed.Load() {
+		// Nobody is going to handle the event
+		return
+	}
 	c.pendingEvents++
 	c.wg.Add(1)
 	go func() {
@@ -236,10 +244,12 @@ func (c *coalescing) Add() {
 
 func (c *coalescing) Close() {
 	defer func() {
-		// Prevent wg race condition on Close and Run.
+		// Prevent wg race condition on Close and Run: goroutines are only registered with the lock held and while
+		// the rate limiter is not closed, so once the lock has been taken here no new one is registered any more.
+		// The lock must not be held while waiting: the run loop needs it to finish the event it is handling.
 		c.lock.Lock()
+		c.lock.Unlock() //nolint:staticcheck
 		c.wg.Wait()
-		c.lock.Unlock()
 	}()
 	if c.closed.CompareAndSwap(false, true) {
 		close(c.closeCh)
